@@ -269,15 +269,15 @@ theorem mpf_urandomb_dest_safe (s : FSt) (g : Rand.Gen) (nbits : Nat) (hs : s.ok
 
 /-- negative (the seeded bug of the brief), for ALL destinations and generators: with `prec = PREC (rop) + 1` any request of
     more than `64 (PREC + 1)` bits stores `PREC + 2` limbs. -/
-theorem mpf_urandomb_seeded_unsafe (s : FSt) (g : Rand.Gen) (nbits : Nat) (hw : FWF s)
+theorem mpf_urandomb_seeded_overruns (s : FSt) (g : Rand.Gen) (nbits : Nat) (hw : FWF s)
     (hn : 64 * (s.o.prec + 1) < nbits) : (mpf_urandomb 1 s g nbits).1.ok = false :=
-  mpf_urandomb_prec_plus_one_unsafe s g nbits hw hn
+  mpf_urandomb_prec_plus_one_overruns s g nbits hw hn
 
 -- a destination of mpf_init2 (f, 64) (PREC = 2, three limbs), the default generator, 200 bits requested
 example : (mpf_urandomb 0 (mkF 2) (.mt Rand.mtDefault) 200).1.ok = true :=
   (mpf_urandomb_dest_safe _ _ _ rfl ⟨by simp [mkF, Buf.new], rfl⟩).1
 example : (mpf_urandomb 1 (mkF 2) (.mt Rand.mtDefault) 200).1.ok = false :=
-  mpf_urandomb_seeded_unsafe _ _ _ ⟨by simp [mkF, Buf.new], rfl⟩ (by decide)
+  mpf_urandomb_seeded_overruns _ _ _ ⟨by simp [mkF, Buf.new], rfl⟩ (by decide)
 
 /-! ## mpz_tdiv_qr (mpz/tdiv_qr.c): two destinations -/
 
